@@ -6,7 +6,7 @@ from ..dataflow import ReachingDefs, defs_of_node
 from ..consteval import fold
 from .common import (need, guards_of, calls_to, ext_calls, all_paths_pass, succs, normal_succs, path_conditions,
                      is_param, arg_of, stores_in_package, struct_format)
-from . import C05
+from . import C05, C04
 
 PROPERTY = 'C01'
 LEVEL = 'other'
@@ -453,7 +453,8 @@ def dispatch(R):
                 reaches = True
             elif fi.qual == q2 and n.kind == 'stmt':
                 # event bound to a local which is then yielded
-                reaches = any(rd2.origin(y, y.ast.value)[0] is c for y in g2.yields() if isinstance(y.ast.value, ast.Name))
+                reaches = any(o is c for y in g2.yields() if isinstance(y.ast.value, ast.Name)
+                              for (o, _on) in rd2.origins(y, y.ast.value))
             elif fi.qual in yielded_helpers and n.kind == 'stmt' and isinstance(n.ast, ast.Return) and n.ast.value is c:
                 hy, hc = yielded_helpers[fi.qual]
                 reaches = bool(hc.args) and otext(R, g2, hy, hc.args[0]) == 'message'
@@ -524,7 +525,9 @@ def length(R):
         ok = True
         for d in ds:
             v = d.ast.value if isinstance(d.ast, ast.Assign) else None
-            if isinstance(v, ast.BinOp) and isinstance(v.op, ast.BitAnd):
+            bits = C04._bits(v, {x.id for x in ast.walk(v) if isinstance(x, ast.Name) and x.id not in ('bool', 'int')}) \
+                if v is not None else None
+            if bits is not None and bits[1:] == (0, 127):
                 kinds.append('7bit')
             elif isinstance(v, ast.Call) and (struct_format(R, g.ctx, v) or ('', ''))[1] in ('!H', '!Q'):
                 kinds.append(struct_format(R, g.ctx, v)[1])
